@@ -36,7 +36,8 @@ def prepare (dflt : Enc) (ref : Nat) (m : Sm) : Except Exc (List Sm) :=
     match Split.splitSmsUdh (if gsm then .gsm else .other) ref m.shortMessage with
     | .error e => .error e
     | .ok parts =>
-      if parts.length = 1 then .ok [{ m with esmClass := m.esmClass - 64 }]
+      -- `esm_class & 0b10111111` on a Python int (two's complement): the low octet with bit 6 cleared
+      if parts.length = 1 then .ok [{ m with esmClass := m.esmClass % 256 - 64 }]
       else
         let m' := { m with encoding := some (if gsm then encGsm else encUcs2) }
         if parts.length > 1 then .ok (segments m' ref parts) else .ok [m']
